@@ -25,6 +25,7 @@ type c10In struct {
 	F    int    `json:"f_tenths"` // float field f = F/10
 	S    string `json:"s"`
 	HasK bool   `json:"has_k"`
+	C    int    `json:"c"` // optional integer field c; -1 = absent
 }
 
 type c10Scenario struct {
@@ -34,7 +35,11 @@ type c10Scenario struct {
 	Config   string      `json:"config"`
 }
 
-var c10Kinds = []string{"where", "evalKeep", "evalOnly", "evalKeepList", "evalTag", "default", "delete", "shift", "sample", "derivative", "changeDetect", "stateCount", "stateDuration"}
+var c10Kinds = []string{"where", "evalKeep", "evalOnly", "evalKeepList", "evalTag", "default", "delete", "shift", "sample", "derivative", "changeDetect", "stateCount", "stateDuration", "deleteDim", "changeDetectOpt", "stateDuration"}
+
+// units of stateDuration, in milliseconds
+var c10Units = []int{1000, 2000, 60000, 500}
+var c10UnitText = []string{"1s", "2s", "1m", "500ms"}
 
 func (n c10Node) tick() string {
 	switch n.Kind {
@@ -67,10 +72,14 @@ func (n c10Node) tick() string {
 		return s
 	case "changeDetect":
 		return "|changeDetect('a')"
+	case "changeDetectOpt":
+		return "|changeDetect('c')"
+	case "deleteDim":
+		return "|delete().tag('g')"
 	case "stateCount":
 		return fmt.Sprintf("|stateCount(lambda: \"a\" > %d)", n.X)
 	case "stateDuration":
-		return fmt.Sprintf("|stateDuration(lambda: \"a\" > %d).unit(1s)", n.X)
+		return fmt.Sprintf("|stateDuration(lambda: \"a\" > %d).unit(%s)", n.X, c10UnitText[n.X%4])
 	}
 	return ""
 }
@@ -111,12 +120,13 @@ func c10Gen(c *Ctx) *c10Scenario {
 		var pts []c10In
 		for j := 0; j < n; j++ {
 			t += []int{1, 1, 2, 0}[g.Intn(4)] // repeated timestamps: zero elapsed time for derivative
-			pts = append(pts, c10In{T: t, A: g.Intn(7), F: g.Intn(60) - 20, S: []string{"p", "q", ""}[g.Intn(3)], HasK: g.Bool()})
+			pts = append(pts, c10In{T: t, A: g.Intn(7), F: g.Intn(60) - 20, S: []string{"p", "q", ""}[g.Intn(3)], HasK: g.Bool(), C: g.Intn(4) - 1})
 		}
 		sc.Groups = append(sc.Groups, pts)
 	}
 	var sb strings.Builder
-	sb.WriteString("var s = stream\n    |from().measurement('m').groupBy('g')\n")
+	// two group-by dimensions; h is unique per group, so deleting the dimension g leaves the partition unchanged
+	sb.WriteString("var s = stream\n    |from().measurement('m').groupBy('g', 'h')\n")
 	for b, chain := range sc.Branches {
 		sb.WriteString("s\n")
 		for _, nd := range chain {
@@ -133,11 +143,12 @@ func c10Gen(c *Ctx) *c10Scenario {
 type c10P struct {
 	tags   map[string]string
 	fields map[string]interface{}
-	t      int64 // seconds
+	t      int64  // seconds
+	dims   string // group-by dimensions, "+"-joined
 }
 
 func (p c10P) clone() c10P {
-	return c10P{tags: simrt.CloneMap(p.tags), fields: simrt.CloneMap(p.fields), t: p.t}
+	return c10P{tags: simrt.CloneMap(p.tags), fields: simrt.CloneMap(p.fields), t: p.t, dims: p.dims}
 }
 
 func (p c10P) canon() string {
@@ -153,7 +164,7 @@ func (p c10P) canon() string {
 			fs = append(fs, fmt.Sprintf("%s=%T:%v", k, v, v))
 		}
 	}
-	return fmt.Sprintf("t=%d tags[%s] fields[%s]", p.t, strings.Join(ts, ","), strings.Join(fs, ","))
+	return fmt.Sprintf("t=%d dims[%s] tags[%s] fields[%s]", p.t, p.dims, strings.Join(ts, ","), strings.Join(fs, ","))
 }
 
 // apply runs one node over one group's sequence (all listed nodes keep the group).
@@ -209,6 +220,26 @@ func (n c10Node) apply(in []c10P) []c10P {
 			delete(q.fields, "f")
 			delete(q.tags, "k")
 			out = append(out, q)
+		}
+	case "deleteDim":
+		for _, p := range in {
+			q := p.clone()
+			delete(q.tags, "g")
+			q.dims = "h"
+			out = append(out, q)
+		}
+	case "changeDetectOpt":
+		// consecutive duplicates of the field are discarded; a point without the field is neither emitted nor a change
+		var last interface{}
+		for _, p := range in {
+			v, ok := p.fields["c"]
+			if !ok {
+				continue
+			}
+			if v != last {
+				out = append(out, p)
+				last = v
+			}
 		}
 	case "shift":
 		for _, p := range in {
@@ -278,7 +309,7 @@ func (n c10Node) apply(in []c10P) []c10P {
 				if start < 0 {
 					start = p.t
 				}
-				q.fields["state_duration"] = float64(p.t - start)
+				q.fields["state_duration"] = float64((p.t-start)*1000) / float64(c10Units[n.X%4])
 			} else {
 				start = -1
 				q.fields["state_duration"] = float64(-1)
@@ -322,13 +353,17 @@ func runC10(c *Ctx) Verdict {
 			go func(gi int, pts []c10In) {
 				defer wg.Done()
 				for _, p := range pts {
-					tags := fmt.Sprintf("g=g%d", gi)
+					tags := fmt.Sprintf("g=g%d,h=h%d", gi, gi)
 					if p.HasK {
 						tags += ",k=kv"
 					}
-					line := fmt.Sprintf("m,%s a=%di,f=%d.%d,s=\"%s\" %d\n", tags, p.A, p.F/10, abs(p.F%10), p.S, int64(p.T)*int64(time.Second))
+					opt := ""
+					if p.C >= 0 {
+						opt = fmt.Sprintf(",c=%di", p.C)
+					}
+					line := fmt.Sprintf("m,%s a=%di,f=%d.%d,s=\"%s\"%s %d\n", tags, p.A, p.F/10, abs(p.F%10), p.S, opt, int64(p.T)*int64(time.Second))
 					if p.F < 0 && p.F > -10 {
-						line = fmt.Sprintf("m,%s a=%di,f=-0.%d,s=\"%s\" %d\n", tags, p.A, abs(p.F%10), p.S, int64(p.T)*int64(time.Second))
+						line = fmt.Sprintf("m,%s a=%di,f=-0.%d,s=\"%s\"%s %d\n", tags, p.A, abs(p.F%10), p.S, opt, int64(p.T)*int64(time.Second))
 					}
 					if code := d.WriteLine("db", "rp", line); code != 204 {
 						verdict = Fail("harness/setup", "write rejected %d: %s", code, line)
@@ -349,7 +384,7 @@ func runC10(c *Ctx) Verdict {
 		return verdict
 	}
 	for _, e := range d.Sinks.Errs {
-		if strings.Contains(e, "elaspsed time was 0") || strings.Contains(e, "field is the wrong type") {
+		if strings.Contains(e, "elaspsed time was 0") || strings.Contains(e, "field is the wrong type") || strings.Contains(e, "expected field c not found") {
 			continue // documented refusals: no derivative between two points with the same time, or of a field that is not there
 		}
 		return Fail("node-error", "a node reported an error on well-typed input: %s\nscript:\n%s", e, sc.Script)
@@ -362,11 +397,11 @@ func runC10(c *Ctx) Verdict {
 			if o.Copy == nil {
 				return Fail("harness/unexpected-batch", "stream branch produced a batch")
 			}
-			p := c10P{tags: o.Copy.Tags, fields: o.Copy.Fields, t: o.Copy.TimeNs / 1e9}
-			got[o.Copy.Tags["g"]] = append(got[o.Copy.Tags["g"]], p.canon())
+			p := c10P{tags: o.Copy.Tags, fields: o.Copy.Fields, t: o.Copy.TimeNs / 1e9, dims: strings.Join(o.Copy.Dims, "+")}
+			got[o.Copy.Tags["h"]] = append(got[o.Copy.Tags["h"]], p.canon())
 			// aliasing: the live message must still equal the copy taken when the sink saw it
 			live := harness.CopyPoint(o.Point)
-			lp := c10P{tags: live.Tags, fields: live.Fields, t: live.TimeNs / 1e9}
+			lp := c10P{tags: live.Tags, fields: live.Fields, t: live.TimeNs / 1e9, dims: strings.Join(live.Dims, "+")}
 			if lp.canon() != p.canon() {
 				v := Fail("aliasing/mutated-after-delivery", "a message delivered to branch %d was modified afterwards (a later node or a sibling branch changed it in place)\nwhen seen: %s\nat the end: %s\nscript:\n%s", b, p.canon(), lp.canon(), sc.Script)
 				v.Shape = map[string]interface{}{"clause": "aliasing"}
@@ -376,9 +411,12 @@ func runC10(c *Ctx) Verdict {
 		for gi, pts := range sc.Groups {
 			var in []c10P
 			for _, p := range pts {
-				q := c10P{tags: map[string]string{"g": fmt.Sprintf("g%d", gi)}, fields: map[string]interface{}{"a": int64(p.A), "f": float64(p.F) / 10, "s": p.S}, t: int64(p.T)}
+				q := c10P{tags: map[string]string{"g": fmt.Sprintf("g%d", gi), "h": fmt.Sprintf("h%d", gi)}, fields: map[string]interface{}{"a": int64(p.A), "f": float64(p.F) / 10, "s": p.S}, t: int64(p.T), dims: "g+h"}
 				if p.HasK {
 					q.tags["k"] = "kv"
+				}
+				if p.C >= 0 {
+					q.fields["c"] = int64(p.C)
 				}
 				in = append(in, q)
 			}
@@ -393,7 +431,7 @@ func runC10(c *Ctx) Verdict {
 			if len(want) > 0 {
 				trivial = false
 			}
-			g := got[fmt.Sprintf("g%d", gi)]
+			g := got[fmt.Sprintf("h%d", gi)]
 			if strings.Join(g, "\n") != strings.Join(want, "\n") {
 				var kinds []string
 				for _, nd := range chain {
@@ -432,7 +470,7 @@ func init() {
 	Register(&Prop{
 		ID:  "C10",
 		Run: runC10,
-		Rule: "case = a stem from().groupBy('g') forked into 2-3 sibling branches (each its own goroutines), every branch a chain of 1-3 nodes from where, eval (as + keep() / keep(list) / no keep / tags()), default, delete, shift, sample, derivative (unit, nonNegative, as), changeDetect, stateCount, stateDuration with generated parameters, over 1-3 groups of 1-8/16 points (int, float and string fields, an optional tag, repeated timestamps), one concurrent writer per group; " +
+		Rule: "case = a stem from().groupBy('g','h') forked into 2-3 sibling branches (each its own goroutines), every branch a chain of 1-3 nodes from where, eval (as + keep() / keep(list) / no keep / tags()), default, delete (fields, tags, and the first group-by dimension), shift, sample, derivative (unit, nonNegative, as), changeDetect (also on a field that some points lack), stateCount, stateDuration (units 500ms/1s/2s/1m) with generated parameters; outputs are compared with their group-by dimensions, over 1-3 groups of 1-8/16 points (int, float and string fields, an optional tag, repeated timestamps), one concurrent writer per group; " +
 			"non-trivial = the reference produces output on some branch; distinct = distinct (scenario, interleaving signature) pairs",
 		Real:        []string{"WhereNode, EvalNode, DefaultNode, DeleteNode, ShiftNode, SampleNode, DerivativeNode, ChangeDetectNode, StateTracking nodes", "edge forwarding (the same message object goes to every child edge), GroupedConsumer, tick/stateful", "FromNode/groupBy, LogNode, TaskMaster, httpd write endpoint"},
 		Stub:        []string{"log sink at the end of every branch: keeps a deep copy taken on arrival and the live message"},
